@@ -48,7 +48,7 @@ func (c10) Batches(tier string, seed uint64) []core.Batch {
 
 // every exported field of every typed struct must have been compared.
 func (c10) Mandatory(tier string) []string {
-	m := []string{"layout:folded-comma-list", "layout:single-line-comma-list", "layout:folded-dependency", "layout:checksum-block", "layout:blanks-before-separator", "size:>=2^31", "size:int-field>=2^31", "entry:ParseDscFile-relative-path", "entry:ParseChangesFile", "entry:ParseControlFile", "reader:bufio-smaller-than-4096", "accessor:Maintainers", "accessor:HasArchAll:true",
+	m := []string{"layout:folded-comma-list", "layout:single-line-comma-list", "layout:folded-dependency", "layout:checksum-block", "layout:blanks-before-separator", "size:>=2^31", "size:int-field>=2^31", "entry:ParseDscFile-relative-path", "entry:ParseChangesFile", "entry:ParseControlFile", "entry:ParseDscFile-via-symlink", "entry:ParseChangesFile-via-symlink", "entry:ParseControlFile-via-symlink", "reader:bufio-smaller-than-4096", "accessor:Maintainers", "accessor:HasArchAll:true",
 		"accessor:HasArchAll:false", "accessor:AbsFiles", "accessor:DebianSource:found", "accessor:DebianSource:none", "accessor:GetDSC", "accessor:SourcePackage:binnmu",
 		"accessor:SourcePackage:default", "accessor:GetDepends", "accessor:GetBuildDepends", "accessor:Checksums:sha256", "accessor:Checksums:sha512", "accessor:Checksums:none",
 		"accessor:SourceName", "accessor:ByHashPath", "arch:two-part", "arch:all", "arch:wildcard"}
@@ -760,6 +760,35 @@ func (p c10) dsc(c *core.C, t *core.T, r *core.Rand) {
 				c.Cover("entry:ParseDscFile-relative-path")
 			}
 		}
+		// ... and through a symbolic link that lives in another directory: Filename and AbsFiles() follow the path
+		// the caller gave, not the link's target
+		ldir := filepath.Join(t.WorkDir, "c10dsc", "links")
+		os.MkdirAll(ldir, 0o755)
+		lp := filepath.Join(ldir, "rel.dsc")
+		os.Remove(lp)
+		if os.Symlink(fp, lp) == nil {
+			gl, err := control.ParseDscFile(lp)
+			if err != nil || gl == nil {
+				c.Failf("ParseDscFile through a symbolic link failed: %v", err)
+			} else {
+				if gl.Filename != lp {
+					c.Failf("ParseDscFile(%q) (a symbolic link to %q): Filename = %q", lp, fp, gl.Filename)
+				}
+				for i, f := range gl.AbsFiles() {
+					if i < len(files) && filepath.Clean(f.Filename) != filepath.Join(ldir, files[i]) {
+						c.Failf("ParseDscFile(symbolic link).AbsFiles()[%d] = %q, want %q (next to the path that was given)", i, f.Filename, filepath.Join(ldir, files[i]))
+					}
+				}
+				w3 := map[string]interface{}{}
+				for k, v := range d.want {
+					w3[k] = v
+				}
+				w3["Filename"] = lp
+				compareStruct(c, "DSC", *gl, w3, text)
+				c.Cover("entry:ParseDscFile-via-symlink")
+			}
+			os.Remove(lp)
+		}
 		os.Remove(fp)
 	}
 	c.Cover("layout:checksum-block")
@@ -903,6 +932,26 @@ func (p c10) changes(c *core.C, t *core.T, r *core.Rand) {
 				c.Cover("entry:ParseChangesFile")
 			}
 		}
+		// ... and through a symbolic link in another directory: the handle is where the caller said it is
+		ldir := filepath.Join(dir, "links")
+		os.MkdirAll(ldir, 0o755)
+		lp := filepath.Join(ldir, filepath.Base(path))
+		os.Remove(lp)
+		if os.Symlink(path, lp) == nil {
+			gl, err := control.ParseChangesFile(lp)
+			if err != nil || gl == nil {
+				c.Failf("ParseChangesFile through a symbolic link failed: %v", err)
+			} else {
+				w3 := map[string]interface{}{}
+				for k, v := range d.want {
+					w3[k] = v
+				}
+				w3["Filename"] = lp
+				compareStruct(c, "Changes", *gl, w3, text)
+				c.Cover("entry:ParseChangesFile-via-symlink")
+			}
+			os.Remove(lp)
+		}
 		os.Remove(path)
 	}
 	// accessors are asked twice: the second answer must equal the first
@@ -1024,6 +1073,16 @@ func (p c10) control(c *core.C, r *core.Rand) {
 				c.Failf("ParseControlFile(%q) = %+v, %v; want Filename %q, %d binaries, source %q", fp, gf, err, fp, nb, src)
 			}
 			c.Cover("entry:ParseControlFile")
+			lp := fp + ".link"
+			os.Remove(lp)
+			if os.Symlink(fp, lp) == nil {
+				gl, err := control.ParseControlFile(lp)
+				if err != nil || gl == nil || gl.Filename != lp || len(gl.Binaries) != nb || gl.Source.Source != src {
+					c.Failf("ParseControlFile through a symbolic link = %+v, %v; want Filename %q, %d binaries, source %q", gl, err, lp, nb, src)
+				}
+				c.Cover("entry:ParseControlFile-via-symlink")
+				os.Remove(lp)
+			}
 			os.Remove(fp)
 		}
 	}
